@@ -28,6 +28,16 @@ func wrapLine(pl, indent string) string {
 	return ""
 }
 
+func regexLine(pl, indent string) string {
+	switch pl {
+	case "match":
+		return indent + "// goverter:arg:context:regex ^kx$\n"
+	case "nomatch":
+		return indent + "// goverter:arg:context:regex ^zz$\n"
+	}
+	return ""
+}
+
 // chainOf extracts the field names of "error setting field X: " prefixes.
 func chainOf(msg string) []string {
 	out := []string{}
@@ -62,8 +72,13 @@ func cmdWitness(args []string) {
 	b := hx.NewBatch(*work)
 	b.WriteGoMod()
 	var src strings.Builder
-	src.WriteString("package p\n\nimport \"errors\"\n\ntype Inner struct{ V string }\ntype Inner2 struct{ V int }\ntype S1 struct{ I Inner }\ntype T1 struct{ I Inner2 }\ntype S2 struct{ J Inner }\ntype T2 struct{ J Inner2 }\ntype S3 struct{ K string }\ntype T3 struct{ K int }\n\nfunc Atoi(s string) (int, error) { return 0, errors.New(\"boom\") }\n")
+	src.WriteString("package p\n\nimport \"errors\"\n\ntype Inner struct{ V string }\ntype Inner2 struct{ V int }\ntype S1 struct{ I Inner }\ntype T1 struct{ I Inner2 }\ntype S2 struct{ J Inner }\ntype T2 struct{ J Inner2 }\ntype S3 struct{ K string }\ntype T3 struct{ K int }\ntype S4 struct{ V string }\ntype T4 struct{ V string }\ntype S5 struct{ V string }\ntype T5 struct{ V string }\n\nfunc Fn(v string, kx int) string { return v }\n\nfunc Atoi(s string) (int, error) { return 0, errors.New(\"boom\") }\n")
 	for i, s := range scens {
+		if s.Kind == "ctxregex" {
+			fmt.Fprintf(&src, "\n// goverter:converter\n%s// goverter:output:file ../gen/c%d.go\n// goverter:output:package %s/gen\ntype C%d interface {\n%s\t// goverter:map V | Fn\n\tM1(source S4, kx int) T4\n%s\t// goverter:map V | Fn\n\tM2(source S5, kx int) T5\n}\n",
+				regexLine(s.PC, ""), i, b.Mod, i, regexLine(s.P1, "\t"), regexLine(s.P2, "\t"))
+			continue
+		}
 		if s.Kind == "direct" {
 			fmt.Fprintf(&src, "\n// goverter:converter\n// goverter:extend Atoi\n%s// goverter:output:file ../gen/c%d.go\n// goverter:output:package %s/gen\ntype C%d interface {\n%s\tM1(source S3) (T3, error)\n}\n",
 				wrapLine(s.PC, ""), i, b.Mod, i, wrapLine(s.P1, "\t"))
@@ -83,7 +98,12 @@ func cmdWitness(args []string) {
 	inner := stv(map[string]any{"k": "b", "tok": "a"})
 	for i, o := range outs {
 		for m := 1; m <= 2; m++ {
-			if o.Gen == "ok" && !(m == 2 && scens[i].Kind == "direct") {
+			if o.Gen == "ok" && scens[i].Kind == "ctxregex" {
+				if m == 1 {
+					b.WriteOutputs(i, o.Files) // compiled with the rest of the gen package; not executed
+				}
+				w.Write(map[string]any{"ins": []any{}})
+			} else if o.Gen == "ok" && !(m == 2 && scens[i].Kind == "direct") {
 				if m == 1 {
 					b.WriteOutputs(i, o.Files)
 				}
